@@ -153,7 +153,7 @@ inline Op decode(const uint8_t* b, const Profile& p) {
     }
     case O_UNWATCH: o.a = {static_cast<int>(b[2] % NDW), static_cast<int>(b[3] % NMON)}; break;
     case O_DESTROY_DW: case O_RECREATE_DW: o.a = {static_cast<int>(b[2] % NDW)}; break;
-    case O_COPY_DW: case O_MOVE_DW: o.a = {static_cast<int>(b[2] % NDW), static_cast<int>(b[3] % NDW)}; break;
+    case O_COPY_DW: case O_MOVE_DW: o.a = {static_cast<int>(b[2] % NDW), static_cast<int>(b[3] % NDW), b[4] % 2}; break;
     case O_ASSIGN_DW: o.a = {static_cast<int>(b[2] % NDW), static_cast<int>(b[3] % NDW), b[4] % 2}; break;
     case O_SWAP_REPORTER: o.a = {b[2] % 2}; break;
     case O_PUSH_TRACER: o.a = {b[2] % 3 == 0 ? 1 : 0}; break;
